@@ -764,6 +764,12 @@ func (H) Execute(x *common.Exec, s any) {
 		x.Inconclusive = "step-limit"
 		return
 	}
+	if bl := x.R.BlockedOnLocks(); len(bl) > 0 && out == simrt.Quiescent {
+		// tasks waiting for each other's locks with nothing else able to happen:
+		// whatever the property under test promises (a sync, a snapshot, a
+		// delivery, the end of an RPC) will never come
+		x.Violate(x.Prop+"/deadlock", "tasks are blocked on locks forever: %v\nall tasks: %s", bl, x.R.Summary())
+	}
 	var stuck []string
 	for _, t := range writers {
 		if !x.R.TaskDone(t) {
